@@ -830,7 +830,7 @@ func main() {
 	if c.Thorough() {
 		cpuChoices = []int{0, 1, 2, 3}
 	}
-	par := 8
+	par := c.Pick(8, 12)
 	sem := make(chan int, par)
 	for i := 0; i < par; i++ {
 		sem <- i
@@ -855,7 +855,7 @@ func main() {
 			continue
 		}
 		c.Count("dry-run-mutations", int64(len(trace)))
-		exhaustive := c.Thorough() && hi < 3
+		exhaustive := c.Thorough() && hi < 2
 		cases := chooseCases(c, r, h, trace, after, base, exhaustive)
 		// second-order crashes: recovery runs armed at seeded positions
 		nd := c.Pick(2, 8)
